@@ -521,7 +521,7 @@ ACTION_CONSTRAINT Canonical
 {emit}
 CHECK_DEADLOCK FALSE
 """
-PC_PROPS = ["INVARIANT TypeOK", "INVARIANT AtMostNumPools", "INVARIANT SameKeySamePool",
+PC_PROPS = ["PROPERTY CachedSocketsKept", "INVARIANT TypeOK", "INVARIANT AtMostNumPools", "INVARIANT SameKeySamePool",
             "INVARIANT EvictedPoolSocketsClosedWhenUnused", "INVARIANT CachedPoolNeverClosed",
             "INVARIANT InFlightResponseFinishes", "INVARIANT UsedPoolAlive", "PROPERTY LRUEvicted"]
 PC_ACTIONS = ["StartReq", "StartGoc", "StartHSend", "Lock", "Look", "Create", "Insert", "Unlock", "Send", "Fin",
@@ -840,6 +840,7 @@ def _pm_shard(args):
     for _ in range(nrandom):
         items.append((rng.choice([1, 2, 2, 3]), random_pm_walk(rng, rng.randint(3, maxlen)), "random"))
     traces, exp_bad, nontriv = [], [], 0
+    t_run = time.time()
     for np, hist, kind in items:
         tr = run_pm_scenario(np, hist)
         traces.append(tr)
@@ -849,10 +850,17 @@ def _pm_shard(args):
             mm = compare_expected(hist, tr)
             if mm and len(exp_bad) < 5:
                 exp_bad.append((mm[:3], np, hist))
+    t_run = time.time() - t_run
     bad, drift, ndrift = [], [], 0
-    for a in range(0, len(traces), 500):
-        chunk = traces[a:a + 500]
-        r, verdicts, drifts = validate("PoolCache_Trace", PC_TRACE_CFG, chunk)
+    step = 500
+    nsc = len(scen)
+    for a, b in [(x, min(x + step, nsc)) for x in range(0, nsc, step)] + \
+                [(x, min(x + step, len(traces))) for x in range(nsc, len(traces), step)]:
+        chunk = traces[a:b]
+        top = max([1] + [max(e["ref"], e["h"], e["p"], e["s"]) for t in chunk for e in t["ev"]])
+        if top > 47:
+            raise tlc.MachineryError("trace uses ids beyond the monitor's range")
+        r, verdicts, drifts = validate("PoolCache_Trace", PC_TRACE_CFG.replace("MaxOps = 48", "MaxOps = %d" % (top + 1)), chunk)
         ndrift += len(drifts)
         drift += [(list(d), items[a + d[0] - 1][0], _strip(items[a + d[0] - 1][1])) for d in drifts[:3]]
         for tid, (pos, clause) in verdicts.items():
@@ -860,7 +868,7 @@ def _pm_shard(args):
                 np, hist, kind = items[a + tid - 1]
                 bad.append((clause, pos, {"kind": "pmscenario", "np": np, "ops": _strip(hist)}))
     return {"n": len(traces), "events": sum(len(t["ev"]) for t in traces), "bad": bad, "drift": drift[:3],
-            "ndrift": ndrift, "exp_bad": exp_bad, "nontriv": nontriv,
+            "ndrift": ndrift, "exp_bad": exp_bad, "nontriv": nontriv, "t_run": t_run,
             "sample": traces[0] if traces else None}
 
 
@@ -1037,6 +1045,22 @@ def _race_shard(args):
     return {"nsched": nsched, "nhist": len(traces), "bad": bad, "ndrift": ndrift, "drift": drift[:3],
             "maxpre": maxpre, "preempted": sum(1 for x in meta if x["pre"] > 0),
             "sample": traces[len(traces) // 2] if traces else None}
+
+
+def _timed(fn):
+    import functools
+
+    @functools.wraps(fn)
+    def w(args):
+        t0 = time.time()
+        o = fn(args)
+        o["t"] = time.time() - t0
+        return o
+    return w
+
+
+for _f in ("_seq_shard", "_conc_emit", "_conc_run_shard", "_pm_shard", "_pc_emit", "_race_shard"):
+    globals()[_f] = _timed(globals()[_f])
 
 
 # =================================================================================================
@@ -1349,7 +1373,15 @@ def run(rep):
                                          "(the rule has no teeth)")
     s1.shutdown()
     rep.exhaustive = True
-    rep.extra["wall_breakdown_s"] = {"total": round(time.time() - t_start, 1)}
+    rep.extra["worker_seconds"] = {"lru_traces": round(sum(o["t"] for o in outs), 1),
+                                   "conc_emission": round(sum(o["t"] for o in bem), 1),
+                                   "conc_schedules_and_validation": round(sum(o["t"] for o in bouts), 1),
+                                   "pm_emission": round(sum(o["t"] for o in cem), 1),
+                                   "pm_scenarios_and_validation": round(sum(o["t"] for o in couts), 1),
+                                   "pm_scenarios_python_only": round(sum(o["t_run"] for o in couts), 1),
+                                   "pm_races_and_validation": round(sum(o["t"] for o in routs), 1),
+                                   "stage1_tlc": round(sum(x["wall_s"] for x in rep.stage1), 1),
+                                   "total_wall": round(time.time() - t_start, 1)}
 
 
 # =================================================================================================
